@@ -215,11 +215,20 @@ CLAIMED.update({
               "exception), __reduce__ round trip keeps name/token.  Tie + exploration: rebuild in-process, in fresh interpreters with "
               "different PYTHONHASHSEED, cloudpickle round trips loaded here and in a fresh interpreter, per-node pickles checked against "
               "the model; name, keys, optimized key set, chunks, dtype, Frisky keys, values compared.", "5/C07", _TB, "Coq naming model + cross-process / pickle determinism check"),
-    "C08": _c("Coq (coq/Properties/C08.v): a linear measure strictly decreases for 10 modelled rewrite rules (so any strategy over them "
-              "terminates) with monotonicity lemmas.  Exploration: programs that compute from their raw form must simplify/lower/fuse under "
-              "a watchdog without error and be idempotent (simplify, lower, fuse, optimize), incl. rechunk/concat/slice towers, nested "
-              "unification above view-like nodes and empty selections.", "5/C08",
-              _TB + "dask's fixpoint driver (Expr.simplify) and unmodelled rules are covered by the watchdog only.", "Coq termination measure for modelled rules + watchdog/idempotence exploration"),
+    "C08": _c("Coq (coq/Properties/C08.v, 28 obligations): a linear measure mu strictly decreases for the 18 modelled simplify rules with "
+              "monotonicity in every child; lifted to the whole REWRITE SYSTEM (Rewrite.v: rstep = a rule at any position): every step "
+              "decreases mu, every rewrite sequence from e is shorter than mu e, rstep is well-founded, `applicable` decides reducibility, "
+              "`all_steps` is sound and complete, `simplify_model` (outermost-first sweeps, fuel mu e) only takes steps, always ends in a "
+              "normal form and is idempotent; confluence is REFUTED by an API-reachable critical pair (same array, two names).  Tie "
+              "(fam_normal_forms): the reified REAL simplify() fixpoint of generated programs must be a model normal form (a model rule that "
+              "still applies must be explained by one of the implementation's own gates, replayed: no-block-culled / shared-child / "
+              "grid-contract), real rewrite and sweep counts <= mu, real result in `normal_forms raw`.  Exploration: programs that compute "
+              "from their raw form must simplify/lower/fuse under a watchdog without error and be idempotent (simplify, lower, fuse, "
+              "optimize), incl. rechunk/concat/slice towers, nested unification above view-like nodes, empty selections, API-surface calls.",
+              "28/C08", _TB + "the three non-measure-decreasing rules (slice into FromArray, Transpose through Elemwise, Rechunk through "
+              "Concatenate), lowering and fusion are covered by the watchdog / idempotence exploration only; the model strategy is not an exact "
+              "mirror of Expr.simplify_once (normal forms are compared, not traces).",
+              "Coq termination + normal-form theorems for the modelled rewrite system + normal-form tie + watchdog/idempotence exploration"),
     "C09": _c("Coq (coq/Properties/C09.v): for every history of build/materialize/drop and every configuration, cache entries denote what "
               "their name denotes provided lowering preserves denotation (discharged for the rechunk planner and chunk unification by "
               "C15/C17 theorems); the stronger 'lowered FORM is a function of the name' is refuted (= F5).  Tie: the real _LOWER_CACHE "
